@@ -84,13 +84,17 @@ FSCOPE = False          # the tree under check resolves QName fields at the fiel
 
 # value pools: type -> list of (value key, lexical variants).  Equal value keys (within one primitive
 # family) denote the same value of the value space.
+# FALSY values (Python truthiness of what get_value returns: int / Decimal zero in every spelling, the empty string)
+# are ordinary members of every pool, and the order of the classes is permuted per case (`gen_doc`), so that they
+# are as frequent as any other value in complete AND incomplete tuples.
 POOL = {
-    'integer': [('n1', ['1', '01', '+1', ' 1 ']), ('n2', ['2', '+2', '002']), ('n0', ['0', '-0', '+00'])],
+    'integer': [('n1', ['1', '01', '+1', ' 1 ']), ('n2', ['2', '+2', '002']),
+                ('n0', ['0', '-0', '+00', ' 0 ', '000'])],
     'decimal': [('n1', ['1', '1.0', '01.00', '+1.']), ('n2.5', ['2.5', '2.50', '+2.5']),
-                ('n0', ['0', '.0', '-0.0']), ('n2', ['2.0', '2'])],
-    'boolean': [('bT', ['true', '1', ' true ']), ('bF', ['false', '0'])],
+                ('n0', ['0', '.0', '-0.0', '0.0', '+0.', '00.00', '-0']), ('n2', ['2.0', '2'])],
+    'boolean': [('bT', ['true', '1', ' true ']), ('bF', ['false', '0', ' false', '0 '])],
     'string': [('s:a', ['a']), ('s:A', ['A']), ('s:1', ['1']), ('s:01', ['01']), ('s:{urn:a}x', ['{urn:a}x']),
-               ('s:true', ['true'])],
+               ('s:true', ['true']), ('s:', ['']), ('s: ', [' ']), ('s:0', ['0']), ('s:  ', ['  '])],
     # QName value keys are NOT part of the case: the oracle computes them from the lexical form and the
     # declarations in scope of the abstract node (`resolve_qname`); the keys here hold under NSDECL only
     'QName': [('{urn:a}x', ['p:x', 'q:x', ' p:x']), ('{urn:a}y', ['p:y']), ('{urn:b}x', ['r:x']), ('x', ['x'])],
@@ -264,28 +268,46 @@ def gen_constraints(rng, fields: list[dict], recursive: bool, rootsub: bool = Fa
 POOL_TNS_QNAME = [('{urn:a}x', ['p:x', 'q:x', ' p:x']), ('x', ['x', ' x']), ('{urn:b}x', ['r:x']), ('{urn:a}y', ['p:y'])]
 
 
-def gen_row(rng, tag: str, fields: list[dict], p_absent: float, nclasses: int, tns: bool = False) -> dict:
+def gen_row(rng, tag: str, fields: list[dict], p_absent: float, nclasses: int, tns: bool = False,
+            pools: Optional[dict] = None) -> dict:
     vals = []
     for f in fields:
         ty = f['ty'] if tag == 'item' else f['rty']
         if rng.random() < p_absent:
             vals.append(None)
         else:
-            full = POOL_TNS_QNAME if tns and ty == 'QName' else POOL[ty]
+            full = POOL_TNS_QNAME if tns and ty == 'QName' else (pools or POOL)[ty]
             pool = full[:max(1, nclasses)] if rng.random() < 0.85 else full
             key, lex = rng.choice(pool)
             vals.append([None if ty == 'QName' else key, rng.choice(lex)])
     return {'tag': tag, 'vals': vals, 'kids': [], 'id': None, 'idref': None}
 
 
-def gen_doc(rng, fields: list[dict], recursive: bool, big: bool, tns: bool = False, rootsub: bool = False) -> dict:
-    p_absent = rng.choice([0.0, 0.0, 0.1, 0.3])
+def gen_doc(rng, fields: list[dict], recursive: bool, big: bool, tns: bool = False, rootsub: bool = False,
+            falsy_heavy: bool = False) -> dict:
+    p_absent = rng.choice([0.0, 0.0, 0.1, 0.3, 0.5])
     ncl = rng.choice([1, 2, 2, 3])
+    # which value classes are the frequent ones of this document: a per-case permutation of every pool (the QName
+    # pool keeps its order: its first class is the one with several spellings); the zero / empty-string classes
+    # come first in a third of the documents
+    pools = {}
+    zero_first = falsy_heavy or rng.random() < 0.33
+    if zero_first and rng.random() < 0.5:
+        ncl = 1                                 # (nearly) every present value is the falsy one
+    if falsy_heavy:
+        p_absent = rng.choice([0.3, 0.5])
+    for ty, classes in POOL.items():
+        cl = list(classes)
+        if ty != 'QName':
+            rng.shuffle(cl)
+            if zero_first:
+                cl.sort(key=lambda kc: kc[0] not in ('n0', 's:', 'bF'))
+        pools[ty] = cl
 
     def rows(lo, hi):
         out = []
         for _ in range(rng.randint(lo, hi)):
-            out.append(gen_row(rng, rng.choice(['item', 'item', 'ref']), fields, p_absent, ncl, tns))
+            out.append(gen_row(rng, rng.choice(['item', 'item', 'ref']), fields, p_absent, ncl, tns, pools))
         return out
 
     def sec(depth):
@@ -518,6 +540,19 @@ def oracle(case: dict) -> dict:
             q = qualified(c, s)
             for n_, t_ in zip(targets, tuples):
                 picked.setdefault(id(n_), []).append((c, None not in t_))
+            # falsy values (what Python truthiness would confuse with an absent field): histogram only
+            def falsy(x):
+                return x is not None and x[1] in ('n0', 's:')
+            part = [tuple(t_) for t_ in tuples if None in t_ and any(x is not None for x in t_)]
+            if any(all(falsy(x) for x in t_ if x is not None) for t_ in part):
+                cover.add('falsy:%s/incomplete-tuple-whose-present-fields-are-all-zero-or-empty' % c['kind'])
+                zs = [t_ for t_ in part if all(falsy(x) for x in t_ if x is not None)]
+                if len(set(zs)) != len(zs):
+                    cover.add('falsy:%s/TWO-EQUAL-incomplete-tuples-of-zero-or-empty-fields' % c['kind'])
+            if any(t_ and None not in t_ and all(falsy(x) for x in t_) for t_ in tuples):
+                cover.add('falsy:%s/complete-tuple-of-zero-or-empty-fields' % c['kind'])
+            if any(t_ and None not in t_ and any(falsy(x) for x in t_) and not all(falsy(x) for x in t_) for t_ in tuples):
+                cover.add('falsy:%s/complete-tuple-mixing-falsy-and-other-values' % c['kind'])
             if len(tuples) >= 2 or any(None in t for t in tuples):
                 work += 1
             if c['kind'] == 'unique':
@@ -913,7 +948,7 @@ def evaluate(ctx: Ctx, case: dict, reqs: Optional[list], pend: Optional[list], t
     for k in sorted({e[0] for e in impl['errors']}):
         ctx.count('err:' + k)
     for k in sorted(orc['cover']):
-        ctx.count(k if k.startswith(('overlap:', 'order:')) else 'branch:' + k)
+        ctx.count(k if k.startswith(('overlap:', 'order:', 'falsy:')) else 'branch:' + k)
     ctx.count('verdict:' + ('crash' if impl['crash'] else 'invalid' if impl['errors'] else 'valid'))
     for k in ns_stats(case):
         ctx.count(k)
@@ -1148,9 +1183,21 @@ def random_case(rng, big: bool) -> dict:
     fields = gen_fields(rng, nf, 0.5 if nsmode == 'scatter' else 0.0, rng.random() < 0.25)
     recursive = rng.random() < 0.12
     rootsub = rng.random() < 0.3
+    # `falsy-heavy` documents: multi-field constraints over types that HAVE a falsy value, mostly unique, many
+    # absent fields, the zero / empty-string class dominant
+    heavy = rng.random() < 0.12
+    if heavy:
+        fields = gen_fields(rng, rng.choice([2, 2, 3]), 0.0, rng.random() < 0.25)
+        for f in fields:
+            f['ty'] = rng.choice(['integer', 'decimal', 'string', 'integer'])
+            f['rty'] = f['ty'] if rng.random() < 0.7 else rng.choice(['integer', 'decimal', 'string'])
     cons = gen_constraints(rng, fields, recursive, rootsub)
+    if heavy:
+        for c in cons:
+            if c['kind'] == 'key' and rng.random() < 0.6:
+                c['kind'] = 'unique'
     case = {'v': rng.choice(['1.0', '1.0', '1.1']), 'recursive': recursive, 'fields': fields, 'cons': cons,
-            'doc': gen_doc(rng, fields, recursive, big, tns, rootsub), 'tns': tns, **({'rootsub': True} if rootsub else {}),
+            'doc': gen_doc(rng, fields, recursive, big, tns, rootsub, heavy), 'tns': tns, **({'rootsub': True} if rootsub else {}),
             'src': rng.choice(['etree', 'etree', 'text', 'lxml'] if nsmode == 'root' else ['text', 'text', 'lxml'])}
     if tns and rng.random() < 0.3:
         case['etag'] = 'default'
@@ -1462,6 +1509,63 @@ def overlap_cases(ctx: Ctx):
                                'doc': {'tag': 'root', 'vals': [], 'kids': kids, 'id': None, 'idref': None}}
 
 
+def falsy_cases(ctx: Ctx):
+    """exhaustive: FALSY field values in complete and incomplete tuples.  Two-field unique / key U on the item rows
+    and keyref R on the ref rows, for the type pairs below; every field of a row is absent, a falsy value in one of
+    two spellings (0 / -0, 0.0 / -0, '' / ' ' [the blank is a different, truthy string], false / 0) or a non-falsy
+    value: every pair of item rows (every subset of fields missing on each) x a reference row.  Then a three-field
+    unique / key over integer columns with values {absent, 0, +00} on two and three rows."""
+    pool = {'integer': [None, ['n0', '0'], ['n0', '-0'], ['n1', '1']],
+            'decimal': [None, ['n0', '0.0'], ['n0', '-0'], ['n1', '1.0']],
+            'string': [None, ['s:', ''], ['s: ', ' '], ['s:a', 'a']],
+            'boolean': [None, ['bF', 'false'], ['bF', '0'], ['bT', 'true']]}
+    pairs = [('integer', 'integer'), ('decimal', 'integer'), ('string', 'string'), ('string', 'decimal'),
+             ('boolean', 'integer')]
+    for t1, t2 in pairs:
+        for loc in (('attr', 'attr'), ('child', 'attr')) if (t1, t2) in pairs[:3] else (('attr', 'child'),):
+            fields = [{'name': 'f1', 'loc': loc[0], 'ty': t1, 'rloc': 'attr', 'rty': t1},
+                      {'name': 'f2', 'loc': loc[1], 'ty': t2, 'rloc': loc[1], 'rty': t2}]
+            rows = list(itertools.product(pool[t1], pool[t2]))
+            refs = [None, (pool[t1][2], pool[t2][1])] + ([] if ctx.quick() else
+                                                         [(pool[t1][1], None), (None, pool[t2][2]), (pool[t1][3], pool[t2][1])])
+            for kind in ('unique', 'key'):
+                cons = [{'name': 'K', 'kind': kind, 'on': 'root', 'sel': 'item',
+                         'fields': [field_xpath(f, 'item') for f in fields], 'refer': None},
+                        {'name': 'R', 'kind': 'keyref', 'on': 'root', 'sel': 'ref',
+                         'fields': [field_xpath(f, 'ref') for f in fields], 'refer': 'K'}]
+                if kind == 'key':
+                    cons.reverse()
+                for a in rows:
+                    for b in rows:
+                        if kind == 'key' and ctx.quick() and not (None in a or None in b):
+                            continue        # (quick: the complete x complete pairs are run for unique)
+                        for r in refs:
+                            kids = [_row('item', *a), _row('item', *b)] + ([_row('ref', *r)] if r else [])
+                            yield {'v': '1.0', 'recursive': False, 'fields': fields, 'cons': cons,
+                                   'doc': {'tag': 'root', 'vals': [], 'kids': kids, 'id': None, 'idref': None}}
+    fields = [{'name': f'f{i}', 'loc': 'attr', 'ty': 'integer', 'rloc': 'attr', 'rty': 'decimal'} for i in (1, 2, 3)]
+    z = [None, ['n0', '0'], ['n0', '+00']]
+    rows = list(itertools.product(z, z, z))
+    for kind in ('unique', 'key'):
+        cons = [{'name': 'K', 'kind': kind, 'on': 'root', 'sel': 'item', 'fields': ['@f1', '@f2', '@f3'], 'refer': None},
+                {'name': 'R', 'kind': 'keyref', 'on': 'root', 'sel': 'ref', 'fields': ['@f1', '@f2', '@f3'], 'refer': 'K'}]
+        for a in rows:
+            for b in rows:
+                for extra in ([], [_row('ref', ['n0', '0.0'], ['n0', '-0'], ['n0', '.0'])],
+                              [_row('ref', ['n0', '0.0'], None, ['n0', '.0'])]):
+                    yield {'v': '1.0', 'recursive': False, 'fields': fields, 'cons': cons,
+                           'doc': {'tag': 'root', 'vals': [], 'kids': [_row('item', *a), _row('item', *b)] + extra,
+                                   'id': None, 'idref': None}}
+        if not ctx.quick() or kind == 'unique':
+            part = [r for r in rows if None in r and any(x is not None for x in r)]
+            for a in part[::ctx.pick(3, 1)]:
+                for b in part:
+                    for c in part[::ctx.pick(2, 1)]:
+                        yield {'v': '1.0', 'recursive': False, 'fields': fields, 'cons': cons[:1],
+                               'doc': {'tag': 'root', 'vals': [], 'id': None, 'idref': None,
+                                       'kids': [_row('item', *a), _row('item', *b), _row('item', *c)]}}
+
+
 def run(ctx: Ctx, driver_ok: bool) -> None:
     load_findings(ctx)
     detect_mode()
@@ -1494,6 +1598,8 @@ def run(ctx: Ctx, driver_ok: bool) -> None:
         go(case, 'exhaustive-ns-placement')
     for case in overlap_cases(ctx):
         go(case, 'exhaustive-overlap')
+    for case in falsy_cases(ctx):
+        go(case, 'exhaustive-falsy')
     n = ctx.pick(4000, 30000)
     for i in range(n):
         go(random_case(ctx.rng, big=(i % 5 == 4)), 'random')
@@ -1512,7 +1618,10 @@ def run(ctx: Ctx, driver_ok: bool) -> None:
                                 'and a reference row (on the row, its field elements, leading / trailing children, a nested '
                                 'descendant, sibling notes before / after) x attribute / child field x text / lxml source; '
                                 'every small id / parent-pointer table whose rows are selected by a keyref AND the key / unique '
-                                'it refers to (and a further unique) x every declaration order x same / nested scope elements.  '
+                                'it refers to (and a further unique) x every declaration order x same / nested scope elements; '
+                                'every pair of rows of a two-field unique / key over {absent, two spellings of the falsy value '
+                                '(0, 0.0, empty string, false), a truthy value} per field for 5 type pairs x a reference row, '
+                                'and of a three-field one over {absent, 0, +00}.  '
                                 'random: %d seeded template x document cases') % (ctx.pick(3, 4), n)
 
 
